@@ -1,6 +1,6 @@
 /-
   PINS of property C16: the decision tokens of every item the property is anchored in
-  (properties.jsonl `anchors` + tools/anchor_extra.json), as they were in /repo at b30ed81 when the
+  (properties.jsonl `anchors` + tools/anchor_extra.json), as they were in /repo at 770977e when the
   model was validated against the source.  Written by tools/pin_anchors.py; the right-hand sides are
   compared by the kernel with lean/Chrono/Extracted/Anchors.lean, which tools/extractors/anchors.py
   regenerates from /repo's working tree on every check.  A theorem that fails here means: anchored
@@ -80,7 +80,7 @@ theorem src_offset_local_tz_info_timezone_rs_fn_find_local_time_type_from_local 
 
 /-- src/offset/local/tz_info/timezone.rs:fn new -/
 theorem src_offset_local_tz_info_timezone_rs_fn_new : C16_src_offset_local_tz_info_timezone_rs_fn_new =
-    ["v1", "Vec", "<", "Transition", ">", "v2", "Vec", "<", "LocalTimeType", ">", "v3", "Vec", "<", "LeapSecond", ">", "v4", "Option", "<", "TransitionRule", ">", "->", "Result", "<", "Self", "Error", ">", "v5", "Self", "v1", "v2", "v3", "v4", "v5", "as_ref(", "validate(", "?", "Ok(", "v5", "§", "v1", "i64", "v2", "usize", "->", "Self", "Self", "v1", "v2", "§", "v1", "i64", "v2", "i32", "->", "Self", "Self", "v1", "v2", "§", "v1", "&", "u8", "->", "Result", "<", "Self", "Error", ">", "v2", "v1", "len(", "if!(", "3", "..=", "7", "contains(", "&", "v2", "return", "Err(", "Error", "LocalTimeType(", "\"…\"", "v3", "0", "8", "v3", "0", "v1", "len(", "as", "u8", "v4", "0", "while", "v4", "<", "v2", "v5", "v1", "v4", "match", "v5", "b'0'", "..=", "b'9'", "|", "b'A'", "..=", "b'Z'", "|", "b'a'", "..=", "b'z'", "|", "b'+'", "|", "b'-'", "=>", "v6", "=>", "return", "Err(", "Error", "LocalTimeType(", "\"…\"", "v3", "v4", "+", "1", "v5", "v4", "+=", "1", "Ok(", "Self", "v3", "§", "v1", "i32", "v2", "bool", "v3", "Option", "<", "&", "u8", ">", "->", "Result", "<", "Self", "Error", ">", "if", "v1", "==", "i32", "MIN", "return", "Err(", "Error", "LocalTimeType(", "\"…\"", "v3", "match", "v3", "Some(", "v3", "=>", "TimeZoneName", "new(", "v3", "?", "None", "=>", "return", "Ok(", "Self", "v1", "v2", "v3", "None", "Ok(", "Self", "v1", "v2", "v3", "Some(", "v3"] := by decide +kernel
+    ["v1", "Vec", "<", "Transition", ">", "v2", "Vec", "<", "LocalTimeType", ">", "v3", "Vec", "<", "LeapSecond", ">", "v4", "Option", "<", "TransitionRule", ">", "->", "Result", "<", "Self", "Error", ">", "v5", "Self", "v1", "v2", "v3", "v4", "v5", "as_ref(", "validate(", "?", "Ok(", "v5", "§", "v1", "i64", "v2", "usize", "->", "Self", "Self", "v1", "v2", "§", "v1", "i64", "v2", "i32", "->", "Self", "Self", "v1", "v2", "§", "v1", "&", "u8", "->", "Result", "<", "Self", "Error", ">", "v2", "v1", "len(", "if!(", "3", "..=", "7", "contains(", "&", "v2", "return", "Err(", "Error", "LocalTimeType(", "\"…\"", "v3", "0", "8", "v3", "0", "v1", "len(", "as", "u8", "v4", "0", "while", "v4", "<", "v2", "v5", "v1", "v4", "match", "v5", "b'0'", "..=", "b'9'", "|", "b'A'", "..=", "b'Z'", "|", "b'a'", "..=", "b'z'", "|", "b'+'", "|", "b'-'", "=>", "v6", "=>", "return", "Err(", "Error", "LocalTimeType(", "\"…\"", "v3", "v4", "+", "1", "v5", "v4", "+=", "1", "Ok(", "Self", "v3", "§", "v1", "i32", "v2", "bool", "v3", "Option", "<", "&", "u8", ">", "->", "Result", "<", "Self", "Error", ">", "if", "v1", "<=", "-", "86400", "||", "v1", ">=", "86400", "return", "Err(", "Error", "LocalTimeType(", "\"…\"", "v3", "match", "v3", "Some(", "v3", "=>", "TimeZoneName", "new(", "v3", "?", "None", "=>", "return", "Ok(", "Self", "v1", "v2", "v3", "None", "Ok(", "Self", "v1", "v2", "v3", "Some(", "v3"] := by decide +kernel
 
 /-- src/offset/local/tz_info/timezone.rs:fn unix_time_to_unix_leap_time -/
 theorem src_offset_local_tz_info_timezone_rs_fn_unix_time_to_unix_leap_time : C16_src_offset_local_tz_info_timezone_rs_fn_unix_time_to_unix_leap_time =
